@@ -247,6 +247,15 @@ def write_evidence(prop, tier, seed, main, planted, extra, pre, known, violation
         samples += x.get('samples', [])[:3]
     mod = importlib.import_module('units.' + prop)
     level = getattr(mod, 'LEVEL', 'proof')
+    explanation = getattr(mod, 'EXPLANATION', '')
+    # the level reported is the one MANIFEST.json claims for this property (one source of truth: tools/mkmanifest.py)
+    try:
+        for c in json.load(open(os.path.join(VERIF, 'MANIFEST.json')))['checks']:
+            if c['property_id'] == prop:
+                level = c['level_claimed']['category']
+                explanation = explanation or c['level_claimed'].get('text', '')
+    except Exception:
+        pass
     cov = {
         'obligations': proof_ob, 'discharged': proof_dis,
         'checker_cmd': 'goto-cc --function vf_harness unit.c; goto-instrument --dfcc vf_harness --enforce-contract <f> [--replace-call-with-contract g] [--apply-loop-contracts]; cbmc --bounds-check --pointer-check --pointer-overflow-check --div-by-zero-check --signed-overflow-check --undefined-shift-check --pointer-primitive-check --sat-solver cadical --json-ui',
@@ -261,7 +270,7 @@ def write_evidence(prop, tier, seed, main, planted, extra, pre, known, violation
         'insensitive': insensitive,
         'undecided': undecided,
         'known_findings_open': sorted(set(k['id'] for k in known if k.get('status') == 'open' and k['property'] == prop)),
-        'explanation': getattr(mod, 'EXPLANATION', ''),
+        'explanation': explanation,
         'not_decided': getattr(mod, 'NOT_DECIDED', []),
     }
     ev = {'property_id': prop, 'tier': tier, 'seed': seed, 'level': level, 'coverage': cov,
